@@ -212,8 +212,25 @@ def _hs(rec, case):
     fine_hs = hs.copy()
     rng2 = rng_for('C05h2', case['seed'], case['idx'])
     extra = []
-    for s in range(int(rng2.integers(1, 3))):
-        marks = hgen.random_marks(fine_hs, rng2, style=str(rng2.choice(['random', 'corner', 'isolated', 'multilevel'])), max_levels=5 if hs.dim < 3 else 3)
+    if rng2.random() < 0.35:
+        # a patch wide enough to replace coarse functions, then all of its children (and possibly theirs): the fine space gets levels
+        # which hold deactivated but no (or few) active functions between a replaced function and the level that carries it
+        lv0 = int(rng2.integers(0, fine_hs.numlevels))
+        act = sorted(map(tuple, fine_hs.active_cells(lv0)))
+        maxlv = 5 if hs.dim < 3 else 3
+        if act and lv0 < maxlv - 1:
+            c0 = act[int(rng2.integers(0, len(act)))]
+            pm = max(int(kk.p) for kk in hs.knotvectors(0)); w = int(rng2.integers(1, pm + 3))
+            block = [c_ for c_ in act if all(0 <= a_ - b_ < w for a_, b_ in zip(c_, c0))]
+            cur = block; lv = lv0
+            for s in range(int(rng2.integers(2, 4))):
+                if not cur or lv >= maxlv - 1: break
+                fine_hs.refine({lv: set(cur)}); extra.append({int(lv): [list(x) for x in cur]})
+                parents = set(cur); lv += 1
+                cur = [c_ for c_ in sorted(map(tuple, fine_hs.active_cells(lv))) if tuple(ci // 2 for ci in c_) in parents] if lv < fine_hs.numlevels else []
+    else:
+      for s in range(int(rng2.integers(1, 3))):
+        marks = hgen.random_marks(fine_hs, rng2, style=str(rng2.choice(['random', 'corner', 'isolated', 'multilevel', 'drill'])), max_levels=5 if hs.dim < 3 else 3)
         if not marks: break
         fine_hs.refine({l: set(cs) for l, cs in marks.items()}); extra.append({int(l): [list(x) for x in cs] for l, cs in marks.items()})
     c2 = dict(c, further=extra)
